@@ -26,6 +26,7 @@ type ReplicaAPI struct {
 	mu        sync.Mutex
 	failGet   map[string]bool // cids whose Get fails (scripted fetch failure)
 	gate      func(ctx context.Context, c cid.Cid) error
+	fileGate  func(ctx context.Context) error
 	GetLog    []string
 	recording bool
 }
@@ -51,6 +52,14 @@ func (a *ReplicaAPI) FailGet(c string, fail bool) {
 func (a *ReplicaAPI) SetGate(g func(ctx context.Context, c cid.Cid) error) {
 	a.mu.Lock()
 	a.gate = g
+	a.mu.Unlock()
+}
+
+// SetFileGate installs a function called before every Unixfs().Get (may block or fail):
+// stand-in for a file (a snapshot) whose blocks nobody provides.
+func (a *ReplicaAPI) SetFileGate(g func(ctx context.Context) error) {
+	a.mu.Lock()
+	a.fileGate = g
 	a.mu.Unlock()
 }
 
@@ -154,6 +163,18 @@ type simUnixfs struct {
 }
 
 func (a *ReplicaAPI) Unixfs() coreiface.UnixfsAPI { return simUnixfs{a.CoreAPI.Unixfs(), a} }
+
+func (u simUnixfs) Get(ctx context.Context, p path.Path) (files.Node, error) {
+	u.a.mu.Lock()
+	g := u.a.fileGate
+	u.a.mu.Unlock()
+	if g != nil {
+		if err := g(ctx); err != nil {
+			return nil, err
+		}
+	}
+	return u.UnixfsAPI.Get(ctx, p)
+}
 
 func (u simUnixfs) Add(ctx context.Context, n files.Node, o ...options.UnixfsAddOption) (path.ImmutablePath, error) {
 	p, err := u.UnixfsAPI.Add(ctx, n, o...)
